@@ -10,6 +10,7 @@ import (
 	"go/constant"
 	"go/token"
 	"go/types"
+	"reflect"
 	"sort"
 	"strconv"
 	"strings"
@@ -26,9 +27,23 @@ type Term struct {
 	Ctx  string // expansion context: tells apart instances of one SSA value in different inlined calls
 }
 
+// renKey identifies an SSA value by its address, not by a reference: the global table of Key
+// ids must not keep every analysed variant of the program alive (the collector does not move
+// objects, and two live values never share an address).
 type renKey struct {
-	v   ssa.Value
+	v   uintptr
 	ctx string
+}
+
+func valueAddr(v ssa.Value) uintptr {
+	if v == nil {
+		return 0
+	}
+	rv := reflect.ValueOf(v)
+	if rv.Kind() != reflect.Ptr || rv.IsNil() {
+		return 0
+	}
+	return rv.Pointer()
 }
 
 type renamer struct {
@@ -46,7 +61,7 @@ func (r *renamer) id(kind string, v0 ssa.Value, ctx ...string) int {
 		keyMu.Lock()
 		defer keyMu.Unlock()
 	}
-	v := renKey{v: v0}
+	v := renKey{v: valueAddr(v0)}
 	if len(ctx) > 0 {
 		v.ctx = ctx[0]
 	}
@@ -433,7 +448,7 @@ func (tb *TB) build(v ssa.Value) *Term {
 	case *ssa.FieldAddr:
 		return mk("Field", fieldName(x.X.Type(), x.Field), v, tb.baseTerm(x.X))
 	case *ssa.Field:
-		return mk("Field", fieldName(x.X.Type(), x.Field), v, tb.Term(x.X))
+		return fieldOfTerm(tb.Term(x.X), fieldName(x.X.Type(), x.Field), v)
 	case *ssa.IndexAddr:
 		return mk("Elem", "", v, tb.Term(x.X), tb.Term(x.Index))
 	case *ssa.Index:
@@ -548,11 +563,25 @@ func (tb *TB) load(x *ssa.UnOp) *Term {
 			if len(sts) == 1 && dominatesInstr(sts[0], x) && !escapesBefore(al, x) {
 				return tb.Term(sts[0].Val)
 			}
+			// a local struct variable assigned as a whole exactly once (v := f() spliced,
+			// v := T{..}): its field is the field of the assigned value
+			if len(sts) == 0 && !allocEscapes(al) {
+				if whole := storesTo(al.Parent(), al); len(whole) == 1 && whole[0].Parent() == x.Parent() && dominatesInstr(whole[0], x) {
+					return fieldOfTerm(tb.Term(whole[0].Val), fieldName(a.X.Type(), a.Field), x)
+				}
+			}
 		}
 		if st := tb.dominatingFieldStore(x, a); st != nil {
 			return tb.Term(st.Val)
 		}
-		t := mk("Field", fieldName(a.X.Type(), a.Field), x, tb.baseTerm(a.X))
+		base := tb.baseTerm(a.X)
+		if base.Op == "Struct" {
+			// a struct built here (each field stored once): the field is the stored value
+			if ft := fieldOfTerm(base, fieldName(a.X.Type(), a.Field), x); ft.Op != "Zero" && ft.Op != "Unknown" {
+				return ft
+			}
+		}
+		t := mk("Field", fieldName(a.X.Type(), a.Field), x, base)
 		if tb.fieldUnstable(a) {
 			id, ok := tb.loadID[x]
 			if !ok {
@@ -577,6 +606,12 @@ func (tb *TB) load(x *ssa.UnOp) *Term {
 		sts := storesTo(a.Parent(), a)
 		switch len(sts) {
 		case 0:
+			// a struct built field by field (composite literal) and read as a whole
+			if _, isStruct := a.Type().(*types.Pointer).Elem().Underlying().(*types.Struct); isStruct && !allocEscapes(a) {
+				if t := tb.alloc(a); t.Op == "Struct" && len(t.Args) > 0 {
+					return t
+				}
+			}
 			return mk("Zero", "", a, mk("Type", typeString(a.Type().(*types.Pointer).Elem()), nil))
 		case 1:
 			if sts[0].Parent() == x.Parent() && !dominatesInstr(sts[0], x) {
@@ -923,6 +958,26 @@ func (tb *TB) sliceLit(al *ssa.Alloc, n int) *Term {
 		t.Args = append(t.Args, e)
 	}
 	return t
+}
+
+// fieldOfTerm: the field of a struct value given as a term.
+func fieldOfTerm(t *Term, name string, v ssa.Value) *Term {
+	switch t.Op {
+	case "Struct":
+		for _, kv := range t.Args {
+			if kv.Op == "KV" && kv.S == name && len(kv.Args) == 1 {
+				return kv.Args[0]
+			}
+		}
+		return mk("Zero", "", nil)
+	case "Phi":
+		n := mk("Phi", t.S, nil)
+		for _, a := range t.Args {
+			n.Args = append(n.Args, fieldOfTerm(a, name, nil))
+		}
+		return n
+	}
+	return mk("Field", name, v, t)
 }
 
 func (tb *TB) alloc(al *ssa.Alloc) *Term {
